@@ -175,6 +175,8 @@ class World:
         self.cold_operands = {}
         self.probes = {}
         self.last_stored = 0
+        # user-defined unit systems: name, node id, base units, later __setitem__s (their reference model)
+        self.usys_defs = []
         if not cold:
             self.nodes.append(
                 Node(0, "default", ur.default_unit_registry, dict(lt.default_unit_symbol_lut), "mks")
@@ -250,6 +252,8 @@ class World:
             self.last_stored = i
 
     def drop_node_objects(self, node):
+        # unit systems bound to the registry object that is being replaced go with it
+        self.usys_defs = [d for d in self.usys_defs if d["node"] != node.id]
         keep = [
             (o, m)
             for o, m in zip(self.heap, self.heap_meta)
@@ -554,11 +558,76 @@ def op_unop(w, op):
     raise HarnessError(f)
 
 
+BUILTIN_SYSTEMS = ("cgs", "mks", "imperial", "galactic", "solar", "geometrized", "planck")
+
+
+def usys_def(w, name):
+    for d in w.usys_defs:
+        if d["name"] == name:
+            return d
+    return None
+
+
+def build_usys(w, d):
+    """The real UnitSystem constructor (and __setitem__) on a node's registry."""
+    unyt, lt, dims, uo, ur, us = _U()
+    node = w.node({"node": d["node"]})
+    kw = {}
+    if d.get("temp"):
+        kw["temperature_unit"] = d["temp"]
+    sysobj = us.UnitSystem(d["name"], d["len"], d["mass"], d["time"], registry=node.handles[d.get("h", 0) % len(node.handles)], **kw)
+    for dim, u in d.get("set", []):
+        sysobj[dim] = u
+    return sysobj
+
+
+def op_mkusys(w, op):
+    d = {"name": op["name"], "node": w.node(op).id if not w.cold else op["node"], "h": op.get("h", 0),
+         "len": op["len"], "mass": op["mass"], "time": op["time"], "temp": op.get("temp"), "set": []}
+    if usys_def(w, op["name"]) is not None:
+        raise Skip
+    if w.cold:
+        sysobj = build_usys(w, d)
+    else:
+        dd = dict(d)
+        dd["node"] = op["node"]  # warm worlds address nodes by index
+        sysobj = build_usys(w, dd)
+        w.usys_defs.append(d)
+    return repr(sysobj)
+
+
+def _the_system(w, name):
+    unyt, lt, dims, uo, ur, us = _U()
+    if name in BUILTIN_SYSTEMS:
+        return us.unit_system_registry[name], None
+    d = usys_def(w, name)
+    if d is None:
+        raise Skip
+    return us.unit_system_registry[name], d
+
+
+def op_usys_get(w, op):
+    sysobj, _ = _the_system(w, op["name"])
+    return sysobj[op["dim"]]
+
+
+def op_usys_set(w, op):
+    sysobj, d = _the_system(w, op["name"])
+    if d is None:
+        raise Skip  # the built-in systems are process-global: not edited by the workload
+    sysobj[op["dim"]] = op["ustr"]
+    if not w.cold:
+        d["set"].append([op["dim"], op["ustr"]])
+    return None
+
+
 def op_base(w, op):
     unyt, lt, dims, uo, ur, us = _U()
     x = w.operand(op, "x")
     how = op.get("how", "in_base")
     sysn = op.get("sys")
+    if isinstance(sysn, str) and sysn.startswith("simsys") and usys_def(w, sysn) is None:
+        raise Skip
     if how == "get_base_equivalent":
         return x.units.get_base_equivalent(sysn)
     if not isinstance(x, unyt.unyt_array):
@@ -695,6 +764,7 @@ PROBES = {
     "to": op_to, "to_unit": op_to_unit, "binop": op_binop, "unop": op_unop, "base": op_base,
     "unitop": op_unitop, "simplify": op_simplify, "units_of": op_units_of, "rebind": op_rebind,
     "namespace": op_namespace, "copyobj": op_copyobj,
+    "mkusys": op_mkusys, "usys_get": op_usys_get, "usys_set": op_usys_set,
 }
 
 INPLACE_TARGET = {("to", "convert"), ("base", "convert_to_base")}
@@ -750,6 +820,17 @@ def make_cold_request(w, op, extra_nodes=()):
                 return None
             need.add(ud["node"])
             operands[f] = d
+    defs = []
+    if op["k"] == "usys_get" and op.get("name") in BUILTIN_SYSTEMS:
+        need.add(0)  # the built-in systems hand out units of the default registry
+    for key in ("name", "sys"):
+        d = usys_def(w, op[key]) if isinstance(op.get(key), str) else None
+        if d is not None and op["k"] != "mkusys":
+            need.add(d["node"])
+            dd = dict(d)
+            dd["h"] = 0
+            dd["set"] = [list(x) for x in d["set"]]
+            defs.append(dd)
     for n in w.nodes:
         if n.id in need:
             nodes.append(n.wire())
@@ -757,7 +838,7 @@ def make_cold_request(w, op, extra_nodes=()):
     if "node" in op:
         cop["node"] = w.node(op).id
     cop["h"] = 0
-    return {"op": cop, "nodes": nodes, "operands": operands, "usys_defs": list(getattr(w, "usys_defs", []))}
+    return {"op": cop, "nodes": nodes, "operands": operands, "usys_defs": defs}
 
 
 def cold_eval(req):
@@ -770,6 +851,19 @@ def cold_eval(req):
         w.nodes.append(Node(nw["id"], nw["kind"], reg, model, nw["usys"]))
     for f, d in req["operands"].items():
         w.cold_operands[f] = rebuild_operand(d, w)
+    for d in req.get("usys_defs", []):
+        # a user-defined unit system as a history-free process would have it:
+        # built now, from its definition, on the fresh registry
+        try:
+            build_usys(w, d)
+        except Exception as e:
+            if harness_frame(e.__traceback__):
+                raise
+            # the definition is no longer valid under the registry's current
+            # contents (a base symbol was removed or changed dimension): a
+            # fresh process could not have this system at all - no verdict
+            return {"no_twin": "unit system %s cannot be rebuilt: %s" % (d["name"], type(e).__name__)}
+        w.usys_defs.append(d)
     op = req["op"]
     k = op["k"]
     if k == "unit_batch":
